@@ -99,9 +99,29 @@ func runFeedScenario(c tfCase) (res shutResult) {
 		return -1
 	}
 	// verify: ended feeds have closed their done channel; surviving feeds still deliver
+	round := 0
 	verify := func(after string) {
 		var sentinel uint64
-		h := openHandle()
+		// every open handle looks every collection up afresh (as a user who does not keep the
+		// DataStore object would), then the sentinel goes through one of them in rotation
+		var open []int
+		for hi, o := range handleOpen {
+			if o && !storeDown {
+				open = append(open, hi)
+				for ci := 0; ci < c.Colls; ci++ {
+					// (only some of them each time: a handle may keep a stale cache entry for a while)
+					if !dropped[ci] && (round*7+hi*3+ci*5+len(after))%3 == 0 {
+						w.colls[hi][ci] = nil
+						_ = w.Coll(hi, ci)
+					}
+				}
+			}
+		}
+		h := -1
+		if len(open) > 0 {
+			h = open[round%len(open)]
+			round++
+		}
 		sentCas := map[int]uint64{}
 		if h >= 0 && !storeDown {
 			for ci := 0; ci < c.Colls; ci++ {
@@ -205,6 +225,32 @@ func runFeedScenario(c tfCase) (res shutResult) {
 					st.ended, st.why = true, "bucket deleted"
 				}
 			}
+		case "recreate":
+			h := a.H % c.Handles
+			ci := 1 + a.I%(c.Colls-1)
+			if !dropped[ci] || !handleOpen[h] {
+				continue
+			}
+			if err := w.Handles[h].CreateDataStore(ctx, dsName(allCollNames[ci])); err != nil {
+				bad("tf.recreate", "CreateDataStore failed: %v", err)
+				continue
+			}
+			dropped[ci] = false
+			logf("recreate %s via h%d", allCollNames[ci], h)
+		case "feed":
+			h := a.H % c.Handles
+			ci := a.I % c.Colls
+			if dropped[ci] || !handleOpen[h] {
+				continue
+			}
+			col, err := w.startFeed(FeedCfg{H: h, C: ci}, sgbucket.FeedNoBackfill, false, "")
+			if err != nil {
+				bad("tf.start", "StartDCPFeed on %s via h%d failed: %v", allCollNames[ci], h, err)
+				continue
+			}
+			feeds = append(feeds, &tfState{col: col, covers: map[int]bool{ci: true}})
+			c.Feeds = append(c.Feeds, tfFeed{H: h, C: ci})
+			logf("new feed on %s via h%d", allCollNames[ci], h)
 		case "write":
 			h := openHandle()
 			if h >= 0 {
@@ -298,9 +344,9 @@ func genFeedCase(rt *rapid.T) tfCase {
 		f.Dump = !f.Multi && chance(rt, 15, "feed.dump")
 		c.Feeds = append(c.Feeds, f)
 	}
-	na := rapid.IntRange(1, 6).Draw(rt, "nactions")
+	na := rapid.IntRange(1, 9).Draw(rt, "nactions")
 	for i := 0; i < na; i++ {
-		a := tfAction{Do: pick(rt, []string{"term", "drop", "close", "close", "delete", "write", "write"}, "action"), I: rapid.IntRange(0, 5).Draw(rt, "i"), H: rapid.IntRange(0, 2).Draw(rt, "h")}
+		a := tfAction{Do: pick(rt, []string{"term", "drop", "drop", "recreate", "recreate", "feed", "feed", "close", "delete", "write"}, "action"), I: rapid.IntRange(0, 5).Draw(rt, "i"), H: rapid.IntRange(0, 2).Draw(rt, "h")}
 		c.Actions = append(c.Actions, a)
 	}
 	return c
